@@ -32,8 +32,8 @@ Same == [inst |-> inst, log |-> log, applied |-> applied, rleader |-> rleader, t
          sub |-> sub, evq |-> evq, lp |-> lp, crashed |-> crashed]
 
 GOf(e) ==
-  CASE e.a = "Start" -> G_Start(e.args.r, e.args.s, e.args.op, e.args.x)
-    [] e.a = "Handle" -> G_Handle(e.args.i)
+  CASE e.a = "Start" -> G_Start(e.args.r, e.args.s, e.args.op, e.args.x, e.args.to)
+    [] e.a = "Handle" -> G_Handle(e.args.i, e.args.to)
     [] e.a = "Lock" -> G_Lock(e.args.i)
     [] e.a = "Propose" -> e.args.i \in Ids /\ inst[e.args.i].pc = "checked" /\ e.args.x \in Servers \cup {"-"}
     [] e.a = "Apply" -> G_Apply(e.args.s)
@@ -43,8 +43,8 @@ GOf(e) ==
     [] e.a = "Acquired" -> G_Acquired(e.args.s)
     [] OTHER -> TRUE
 NOf(e) ==
-  CASE e.a = "Start" -> N_Start(e.args.r, e.args.s, e.args.op, e.args.x)
-    [] e.a = "Handle" -> N_Handle(e.args.i)
+  CASE e.a = "Start" -> N_Start(e.args.r, e.args.s, e.args.op, e.args.x, e.args.to)
+    [] e.a = "Handle" -> N_Handle(e.args.i, e.args.to)
     [] e.a = "Lock" -> N_Lock(e.args.i)
     [] e.a = "Propose" -> N_Propose(e.args.i, e.args.x)
     [] e.a = "Apply" -> N_Apply(e.args.s)
